@@ -147,6 +147,17 @@ def run(ctx):
         for _ in range(60 if ctx.tier == "quick" else 600):
             lst = [r.randrange(1, 10) for _ in range(r.randint(0, 6))]
             strs = [s.version(p).string if r.random() < 0.7 or aliases[p] is None else aliases[p].string for p in lst]
+            # a version string may carry blanks and a leading v: the class normalises them away
+            deco = []
+            for t in strs:
+                k = r.random()
+                d = ("v" + t) if k < 0.15 else (" " + t + " ") if k < 0.3 else t
+                try:
+                    ok = s.cls(d) == s.cls(t)
+                except Exception:  # noqa
+                    ok = False
+                deco.append(d if ok else t)
+            strs = deco
             try:
                 fv = rcls.from_versions(strs)
             except Exception as e:  # noqa
@@ -172,6 +183,6 @@ def run(ctx):
                     "alternative spellings of equal versions; all five clauses of the property evaluated on the implementation, and normalize() compared with the model; "
                     "non-trivial = distinct (range, universe with >=2 versions)",
                samples=samples, exhaustive=ctx.tier == "thorough", cases=len(cases), schemes=[s.name for s in schemes], model_impl_differences=len(diffs),
-               proved_in_coq="extensionality, empty result, segment shape, from_versions; the remaining clauses are checked on the implementation (C10_full_statement not yet proved)")
+               proved_in_coq="all clauses (Props/C10.v); order/duplication independence as equality of membership")
     return core.finish(ctx, proofs, cov, violations, [],
-                       assumptions=["C01/C02/C12 of the scheme", "validity/membership/order-independence clauses of normalize are decided by exhaustive small-scope evaluation, not yet by a Coq theorem"])
+                       assumptions=["C01/C02/C12 of the scheme"])
